@@ -261,7 +261,7 @@ func runC11(env *core.Env, ci any) {
 		tok := fmt.Sprintf("tk%dz", i+1)
 		env.Sched.Go(func() {
 			if cl.StartMs > 0 {
-				time.Sleep(time.Duration(cl.StartMs) * time.Millisecond)
+				time.Sleep(time.Duration(cl.StartMs)*time.Millisecond + time.Duration(i)*time.Microsecond) // (never two clients woken by timers of the same instant)
 			}
 			if cl.Kind == "late-connect" {
 				<-shutdownCh
